@@ -273,6 +273,8 @@ func Worker(args []string) int {
 			w.Count("font_programs_loaded", int64(o.glyphSets))
 			w.Count("outline_items_decoded", int64(o.olItems))
 			w.Count("name_tree_entries", int64(o.nameKeys))
+			w.Count("annotations_read", int64(o.annots))
+			w.Count("form_field_nodes", int64(o.formNodes))
 			for _, f := range fails {
 				if f.fp == "flaky" {
 					w.Note(fmt.Sprintf("case %d mode %s (%s): %s", idx, modeNames[mode], mu.Desc, f.what))
@@ -424,9 +426,11 @@ func Run(tier string) int {
 		"(decoded, mutated, re-encoded); thorough adds all pairs of mutations on the values of structural keys. " +
 		"quick adds, for the first seed, all PAIRS of rewirings of the link references of the outline / page tree / name tree (/Kids /Parent /First /Last /Next /Prev /Outlines /Pages /Dests) to every node of those structures (thorough: every seed). " +
 		"In addition a family of CRAFTED files, built by the harness and not by mutation: (structure, link pattern, size) — n nodes of a recursive structure the walk visits " +
-		"(outline items, page tree nodes, name tree nodes, nested form XObjects, tiling patterns, Type 3 fonts, ToUnicode /UseCMap chains, bare reference chains, nested arrays/dictionaries) " +
+		"(outline items, page tree nodes, name tree nodes, nested form XObjects, tiling patterns, Type 3 fonts, ToUnicode /UseCMap chains, bare reference chains, the field tree of the interactive form, nested arrays/dictionaries) " +
 		"in a minimal valid document, every link slot of every node wired to the same relative target out of {none, i+1, i+2, i, 0, i-1}, ALL patterns (chains, loops, shared sub-trees = DAG bombs), n = 1..24, " +
 		"and n in {32..1000} for the patterns with at most one forward slot; and one stream with EVERY filter chain of length <= 3 (thorough 4) over the 11 filter names x 5 payloads, the body being valid for the first layer. " +
+		"A crafted CATALOG-LEVEL SHARED structure, the interactive form every page with a widget depends on: 1..3 (thorough 4) pages with every assignment of {no annotation, widget, text annotation} to the pages x 3 widget flavours (field merged with its widget, widget as /Kids entry of a field, one indirect /Annots array shared by the widget pages) " +
+		"x /AcroForm in {absent, every kind of object that is not a form, the valid form, the valid form with exactly one entry of the wrong kind} x {direct, indirect}; the walk reads the annotations of every page twice through one shared Extractor (page decoder, then annotation/decode.PageAnnotations as cmd/pdf-annotations does) and then the form itself. " +
 		"Every file is walked in 4 modes. distinct = distinct files that differ from their seed")
 	r.Assume(
 		"deviation bound 1 (thorough: 2 on the structural subset, both sites in the same layer)",
@@ -600,6 +604,9 @@ func selfTest(t *table) string {
 	if msg := lenWireSelfTest(); msg != "" {
 		return msg
 	}
+	if msg := formSelfTest(); msg != "" {
+		return msg
+	}
 	for _, idx := range []int{1, t.total / 3, t.total / 2, t.total - 1} {
 		data, mu, _, err := t.mutant(idx)
 		if err != nil {
@@ -644,6 +651,8 @@ func craftSelfTest() string {
 		{"type3", tNext, tNext, func(o *obs) bool { return o.fonts == 2 && o.chars >= 3 }},
 		{"tounicode", tNext, tNone, func(o *obs) bool { return o.fonts == 2 && o.chars == 3 }},
 		{"refchain", tNext, tNone, func(o *obs) bool { return o.chars == 2 }},
+		{"fields", tNext, tNone, func(o *obs) bool { return o.annots == 1 && o.formNodes == 4 }},
+		{"fields", tNext, tNext, func(o *obs) bool { return o.annots == 1 && o.formNodes >= 1 }},
 		{"nest", 0, tNone, func(o *obs) bool { return o.chars == 2 }},
 		{"nest", 2, tNone, func(o *obs) bool { return o.chars == 2 }},
 	} {
